@@ -118,7 +118,22 @@ def outer_containers(env):
     return out
 
 
-def probe_body(ex, run_body, env, it, havoc_ok=()):
+def assigned_before_read(body, name):
+    """True if every iteration assigns `name` (unconditionally, at the top level of the body) before any read of it"""
+    for st in body or []:
+        names = [n for n in ast.walk(st) if isinstance(n, ast.Name) and n.id == name]
+        if not names:
+            continue
+        if isinstance(st, ast.Assign) and len(st.targets) == 1 and isinstance(st.targets[0], ast.Name) and st.targets[0].id == name \
+                and not any(isinstance(n, ast.Name) and n.id == name for n in ast.walk(st.value)):
+            return True
+        if isinstance(st, ast.For) and isinstance(st.target, ast.Name) and st.target.id == name:
+            return False
+        return False
+    return False
+
+
+def probe_body(ex, run_body, env, it, havoc_ok=(), body=None):
     """explore all paths of one iteration. returns list[BodyPath]"""
     saved_trace, saved_pos = ex.trace, ex.pos
     saved_probe, saved_pp = ex.in_summary_probe, ex.probe_pending
@@ -193,7 +208,8 @@ def probe_body(ex, run_body, env, it, havoc_ok=()):
                     raise Unsupported(f'loop body mutates outer container ({attr})')
             # loop-carried names
             for name, v in env.vars.items():
-                if name in saved_vars and saved_vars[name] is not v and not _same(saved_vars[name], v) and name not in havoc_ok:
+                if name in saved_vars and saved_vars[name] is not v and not _same(saved_vars[name], v) and name not in havoc_ok \
+                        and not isinstance(saved_vars[name], Poison) and not assigned_before_read(body, name):
                     raise LoopCarried(name, saved_vars[name])
             bp.local_names = [k for k in env.vars if k not in saved_vars]
             paths.append(bp)
@@ -341,7 +357,7 @@ def summarise_for(ex, st, it, env):
         havoc = {}
         while True:
             try:
-                paths, conts = probe_body(ex, run_body, env, it, havoc_ok=set(havoc))
+                paths, conts = probe_body(ex, run_body, env, it, havoc_ok=set(havoc), body=st.body)
                 break
             except LoopCarried as lc:
                 # sound over-approximation: a scalar modified by the loop takes an arbitrary value of its sort at the
